@@ -31,6 +31,16 @@ def histories(chk, tier):
     return hs
 
 
+def many_page_histories(chk, tier):
+    """One chunk cut into many pages (every write_batch closes a page at page_size 1) and read back by ONE
+    read_batch call: every split of the rows into batches, so any bound on 'pages crossed per call' is passed."""
+    hs = wcommon.gen_histories(chk, [6], [8] if tier == "quick" else [8, 11], 1, 11)               # REQUIRED BYTE_ARRAY
+    hs += wcommon.gen_histories(chk, [9], [7] if tier == "quick" else [7, 9], 1, 9, nullmode="runs")   # OPTIONAL BYTE_ARRAY
+    hs = [h for h in hs if sum(1 for o in h if o["op"] == "WriteBatch") >= 6]
+    cap = 300 if tier == "quick" else 6000
+    return hs if len(hs) <= cap else hs[::len(hs) // cap + 1]
+
+
 def report(chk, verdicts, meta, prop_filter):
     for v in verdicts:
         why = sorted(v["why"])
@@ -73,6 +83,12 @@ def run(chk, tier, replay):
     hs = histories(chk, tier)
     cfgs = configs(tier)
     execs, meta, files, faults = wcommon.run_histories(chk, hs, cfgs, modes=("f",), with_file=False)
+    mp = many_page_histories(chk, tier)
+    mcfgs = [(0, 1), (1, 1)] if tier == "quick" else [(0, 1), (1, 1), (6, 1), (5, 24)]
+    e2, m2, _, _ = wcommon.run_histories(chk, mp, mcfgs, modes=("f", "m"), with_file=False, label="p")
+    execs += e2
+    meta.update(m2)
+    hs = hs + mp
     for cid, (ops, codec, page) in meta.items():
         chk.count((ops, codec, page), wcommon.nontrivial_history(ops))
     for i in range(0, len(hs), max(1, len(hs) // 4)):
@@ -82,7 +98,8 @@ def run(chk, tier, replay):
         chk.add_tlc(r)
     chk.cov["traces_validated_against_impl"] += stats["execs"]
     chk.part("trace", events=stats["events"], executions=stats["execs"], failed_calls=stats["failed"],
-             histories=len(hs), configs=[(wcommon.CODECS[c], p) for c, p in cfgs])
+             histories=len(hs), many_page_histories=len(mp),
+             configs=[(wcommon.CODECS[c], p) for c, p in cfgs], many_page_configs=[(wcommon.CODECS[c], p) for c, p in mcfgs])
     report(chk, verdicts, meta, lambda w: not w.startswith("file:"))
     chk.cov["rule"] = ("histories = reachable Close states of MC_WriterGen (schema catalogue x null patterns x all batch splits x "
                        "row-group cuts x def-levels given/omitted) x (codec, page_size); non-trivial = more batches than columns or >= 1 null; "
